@@ -95,6 +95,19 @@ CONTRACTS = {
                     'self._numvar == ite(check, zmax(old(self._numvar), tmaxabs(con_terms(constraint))), old(self._numvar))'] + WF,
     },
     (O, 'BaseOPB.add_clause'): dict(builder('ctrue(a, lits)'), params={'clause': 'iseq', 'check': 'bool'}),
+    (O, 'BaseOPB.cardinality_neq'): dict(
+        builder('count(a, lits) != value'), params={'lits': 'iseq', 'value': 'int', 'check': 'bool'},
+        loops={0: {'ghost_at_entry': {'O0': 'self._constraints', 'L0': 'lits'}, 'ghost_at_entry_vals': {'NV': 'self._numvar'},
+                   'inv': ['self._constraints == oappc(O0, neqprefix(L0, value, _it))', 'lits == L0', 'self._numvar == NV',
+                           '0 <= value', 'value <= n', 'n == ilen(L0)'],
+                   'modifies_objects': ['self'], 'modifies_fields': {'self': ['_constraints', '_numvar']}},
+               1: {'ghost_at_entry': {'L1': 'lits'}, 'inv': ['lits == iflips(L1, flips, _it)']},
+               2: {'ghost_at_entry': {'L2': 'lits'}, 'inv': ['lits == iflips(L2, flips, _it)']}}),
+    (O, 'BaseOPB.add_parity'): dict(
+        builder('(count(a, lits) % 2 == 1) == (constant == 1)'), params={'lits': 'iseq', 'constant': 'int', 'check': 'bool'},
+        loops={0: {'ghost_at_entry': {'O0': 'self._constraints'}, 'ghost_at_entry_vals': {'NV': 'self._numvar'},
+                   'inv': ['self._constraints == oappc(O0, pfilter(lits, desired_sign, _it))', 'self._numvar == NV'],
+                   'modifies_objects': ['self'], 'modifies_fields': {'self': ['_constraints', '_numvar']}}}),
     (O, 'BaseOPB.cardinality_geq'): dict(builder('count(a, lits) >= value'), params={'lits': 'iseq', 'value': 'int', 'check': 'bool'}),
     (O, 'BaseOPB.cardinality_leq'): dict(builder('count(a, lits) <= value'), params={'lits': 'iseq', 'value': 'int', 'check': 'bool'}),
     (O, 'BaseOPB.cardinality_eq'): dict(builder('count(a, lits) == value'), params={'lits': 'iseq', 'value': 'int', 'check': 'bool'}),
@@ -108,3 +121,10 @@ _c = CONTRACTS[(O, 'BaseOPB.add_clause')]
 for _k in ('requires', 'ensures'):
     _c[_k] = [t.replace('lits', 'clause') for t in _c[_k]]
 _c['raises'] = {'ValueError': 'check and haszero(clause)'}
+
+for _k in ((O, 'BaseOPB.cardinality_neq'), (O, 'BaseOPB.add_parity')):
+    CONTRACTS[_k]['ensures'] = [e for e in CONTRACTS[_k]['ensures'] if not e.startswith('olen(self._constraints) ==')] + \
+        ['olen(self._constraints) >= olen(old(self._constraints))']
+# add_clause appends exactly the constraint  sum(clause) >= 1
+CONTRACTS[(O, 'BaseOPB.add_clause')]['ensures'] = CONTRACTS[(O, 'BaseOPB.add_clause')]['ensures'] + \
+    ["self._constraints == oappc(old(self._constraints), csnoc(cnil, clause))"]
